@@ -602,9 +602,9 @@ def run(ctx):
     found = bool(concrete or sbad or pbad)
     if diffs and not found:
         l, d, out, f12 = diffs[0]
-        ctx.violation("correspondence Quad.v <-> NetModel/MatrixCreator broken (%d of %d cases differ: %s); no input violating C17 found"
-                      % (len(diffs), len(asm), d),
-                      {"broken": "correspondence of coq/Quad.v (theorems of Properties_C17.v)",
+        ctx.violation("correspondence Quad.v / QuadFloat.v <-> NetModel/MatrixCreator broken (%d of %d cases differ: %s); no input violating C17 found"
+                      % (len(diffs), len(asm) + finfo["cases"], d),
+                      {"broken": "correspondence of coq/Quad.v / coq/QuadFloat.v (theorems of Properties_C17.v)",
                        "first_difference": {"case": l, "what": d, "implementation": out}}, found_input=False)
     if not proof_ok and not found:
         ctx.violation("proof obligations of Properties_C17.v do not check", {"broken": "Properties_C17.v", "detail": proof}, found_input=False)
